@@ -623,13 +623,14 @@ class ExpandingTracker(Tracker):
         return out
 
 
-def rule_derived(ctx, rid, func, source, derived, tracker):
+def rule_derived(ctx, rid, func, source, derived, tracker, extra_src_nodes=()):
     """A derived member is rebuilt wholesale from its source after the last structural
     change of the source on every path (post-dominance)."""
     cfg = tracker.cfg
     ev = tracker.all_events()
     src_nodes = {nid for nid, es in ev.items() for e in es
                  if e.member == source and e.op in STRUCTURAL and e.level == 'list'}
+    src_nodes |= set(extra_src_nodes)       # calls to helpers that change the source
     if not src_nodes:
         return
     rebuilds = set()
